@@ -214,6 +214,9 @@ func (i *mapInjector) setElem(_ int, key, value interface{}, keyWasNull, valueWa
 			return errWrongElementType("map value", valueType, newValue.Type())
 		}
 	}
+	if !newKey.Type().Comparable() {
+		return errMapKeyNotHashable(newKey.Type())
+	}
 	i.dest.SetMapIndex(newKey, newValue)
 	return nil
 }
